@@ -12,6 +12,8 @@ CONSTANTS
   Ress <- R12
   ArgC <- NoArgs
   AttC <- NoArgs
+  SysSets <- SysNone
+  LoadVals <- NoVals
   DTMode = "mid"
 CONSTRAINT StateBound
 INVARIANT InflightExact
